@@ -41,7 +41,7 @@ ASSUMPTIONS = ['reference values written by the generator name existing rows of 
                'after a rejected bundle, differences confined to formula (display helper) cells that a following '
                'Calculate repairs are the known C04 finding (formula cells stay dirty after rollback) and are not '
                'charged here']
-BUDGET = {'quick': dict(examples=1600, shards=16, max_seconds=45),
+BUDGET = {'quick': dict(examples=1600, shards=16, max_seconds=40),
           'thorough': dict(examples=20000, shards=16, max_seconds=540)}
 SHRINK_BUDGET = {'quick': 120, 'thorough': 500}
 
